@@ -756,7 +756,12 @@ def decorate_with_checker(func: CallableT) -> CallableT:
                 # Ideally, we would catch any exception here and strip the checkers from the traceback.
                 # Unfortunately, this can not be done in Python 3, see
                 # https://stackoverflow.com/questions/44813333/how-can-i-elide-a-function-wrapper-from-the-traceback-in-python-3
+                #
+                # The contract checking is suspended only while the contracts are checked, not during the call of
+                # the function itself, so that the contracts of the recursive calls in the body are checked as well.
+                _IN_PROGRESS.set(_IN_PROGRESS.get() - {id_func})
                 result = await func(*args, **kwargs)
+                _IN_PROGRESS.set(_IN_PROGRESS.get() | {id_func})
 
                 if postconditions:
                     resolved_kwargs["result"] = result
@@ -827,7 +832,12 @@ def decorate_with_checker(func: CallableT) -> CallableT:
                 # Ideally, we would catch any exception here and strip the checkers from the traceback.
                 # Unfortunately, this can not be done in Python 3, see
                 # https://stackoverflow.com/questions/44813333/how-can-i-elide-a-function-wrapper-from-the-traceback-in-python-3
+                #
+                # The contract checking is suspended only while the contracts are checked, not during the call of
+                # the function itself, so that the contracts of the recursive calls in the body are checked as well.
+                _IN_PROGRESS.set(_IN_PROGRESS.get() - {id_func})
                 result = func(*args, **kwargs)
+                _IN_PROGRESS.set(_IN_PROGRESS.get() | {id_func})
 
                 if postconditions:
                     resolved_kwargs["result"] = result
